@@ -362,6 +362,10 @@ def _bool_dt(f, w, n, memo):
             return [_or3(a, b) for a, b in zip(l, r)]
         if op == 'implies':
             return [_or3(_not3(a), b) for a, b in zip(l, r)]
+        if op == 'iff':
+            return [None if a is None or b is None else (a == b) for a, b in zip(l, r)]
+        if op == 'xor':
+            return [None if a is None or b is None else (a != b) for a, b in zip(l, r)]
         if op == 'since':
             return [_any3(_and3(r[j], _all3(l[j + 1:i + 1])) for j in range(0, i + 1)) for i in R]
         if op == 'until':
